@@ -1192,16 +1192,19 @@ pub fn generate(name: &str, count: usize, rng: &mut Rng, sink: &mut dyn FnMut(Se
         "v1straddle" => {
             let chars = ["\u{e9}", "\u{20ac}", "\u{1F600}"];
             let mut combos: Vec<(usize, usize, usize)> = Vec::new();
-            for w in 0..3usize { for o in 100..=110usize { for tail in 0..4usize { combos.push((w, o, tail)); } } }
+            for w in 0..3usize { for o in 100..=110usize { for tail in 0..7usize { combos.push((w, o, tail)); } } }
             for i in 0..count.min(combos.len()) {
                 let (w, o, tail) = combos[i];
                 let mut bytes = if i % 2 == 0 { b"PROXY UNKNOWN ".to_vec() } else { b"PROXY TCP4 1.2.3.4 ".to_vec() };
                 while bytes.len() < o { bytes.push(b'a' + (bytes.len() % 23) as u8); }
+                // tails 4..: the character comes right AFTER a CR that stands at offset o
+                if tail >= 4 { bytes.push(b'\r'); }
                 bytes.extend_from_slice(chars[w].as_bytes());
                 match tail {
-                    0 => {}
+                    0 | 4 => {}
                     1 => bytes.extend_from_slice(b"\r\n"),
                     2 => { bytes.extend_from_slice(b"bcdefghijklmnop\r\nGET"); }
+                    5 => bytes.extend_from_slice(b"\n"),
                     _ => { bytes.extend_from_slice(b"xyz"); }
                 }
                 let n = bytes.len();
